@@ -39,6 +39,7 @@ import re
 
 import lib
 import norm_common as nc
+import normwhole as nw
 import urlgen
 
 ID = "C04"
@@ -658,6 +659,8 @@ def ops(case):
     for u in _urls(case):
         if _modelable(u):
             out.extend(nc.ops(u, case["opts"]))
+            # the whole function on the string, the parser being the model's own
+            out.extend(nw.norm_ops(u, case["opts"]))
     return out
 
 
@@ -666,6 +669,7 @@ def impl(case):
     for u in _urls(case):
         if _modelable(u):
             out.extend(nc.impl(u, case["opts"]))
+            out.extend(nw.norm_impl(u, case["opts"]))
     return out
 
 
@@ -710,13 +714,14 @@ def nontrivial(case):
 
 def classify(case):
     if case["kind"] == "raw":
-        return ["corpus"]
+        return ["corpus"] + sorted(set(nw.label(u, case["opts"]) for u in (case["u"], case["v"])))
     v = variant(case)
     if v is None:
         return ["not-applicable"]
     labs = ["T:" + t[0] for t in case["T"]]
     labs.append("composed:%d" % len(case["T"]))
     labs.append("opts:" + ("+".join(sorted(case["opts"])) or "default"))
+    labs.extend(sorted(set(nw.label(u, case["opts"]) for u in v)))
     return labs
 
 
